@@ -574,7 +574,7 @@ namespace avel {
 
         [[nodiscard]]
         AVEL_FINL Vector operator-() const {
-            return Vector{0.0} - *this;
+            return Vector{_mm_xor_pd(content, _mm_set1_pd(-0.0))};
         }
 
         //=================================================
